@@ -259,7 +259,8 @@ def build_case(rnd, tier, for_c15=False):
     steps = []
     nsave = [0]
     cur_settings = [dict(settings, enter_lines=enter, exit_lines=exit_)]
-    nprints = rnd.choice([1, 1, 2, 3]) if not for_c15 else 1
+    # C15: sometimes an earlier run of the job is abandoned without any end event (paused, then restarted from the beginning)
+    nprints = rnd.choice([1, 1, 2, 3]) if not for_c15 else rnd.choice([1, 1, 1, 2])
     for pi in range(nprints):
         steps.append(["event", EV_START])
         feats = mk(rel=rnd.random() < 0.3, inch=rnd.random() < 0.2, at=True, fw=rnd.random() < 0.2, p_inside=0.5, extgen=marks,
@@ -294,8 +295,10 @@ def build_case(rnd, tier, for_c15=False):
                     st[1]["shrink"] = True
             steps += [["api_delete", r[-1]] for r in regs]
         k = rnd.random()
-        if for_c15:
+        if for_c15 and pi == nprints - 1:
             break
+        if for_c15:
+            continue
         if k < 0.45:
             steps.append(["script", "gcode", "afterPrintDone"])
             steps.append(["event", "PrintDone"])
